@@ -265,8 +265,8 @@ def exact_imposition(ctx):
     _same(ctx, f, """def func(x, *args, **kwds):
     xtype = type(x)
     x = asarray(list(x))
-    _t = asarray(target, dtype=float)
-    if x.dtype.kind in 'iub' and not (_t - _t.round() == 0).all():
+    _t = asarray(target)
+    if not _holds(x.dtype, _t):
         x = x.astype(result_type(x, _t))
     n = len(x)
     if _t.size > 1:
@@ -297,7 +297,9 @@ def exact_imposition(ctx):
             try: x[i] += offset
             except IndexError: pass
         indx = trac.intersection(indx)
-        pairs = [m for m in pairs if m[0] in indx]
+        indx = [m for m in pairs if m[0] in indx]
+        if len(indx) == len(pairs): break
+        pairs = indx
     return f(x, *args, **kwds)
 """, 'impose_as', 'partner entries := tracked entry (+offset) on a copy, then f(x)', 'impose_as no longer ties the tracked entries exactly')
 
